@@ -163,3 +163,17 @@ def classify(ob, cex):
         if base[:len(node)] != node:
             return 'C11-F24'
     return None
+
+
+def real_replay(ob, cex):
+    """counterexamples of the known-finding class: the same situation on a real directory tree with
+    a real symbolic link (findings/C11-F24-demo.py)"""
+    if classify(ob, cex) != 'C11-F24':
+        return None
+    import os
+    import subprocess
+    demo = os.path.join(os.path.dirname(os.path.dirname(os.path.dirname(os.path.abspath(__file__)))),
+                        'findings', 'C11-F24-demo.py')
+    r = subprocess.run(['/venv/bin/python', demo], capture_output=True, timeout=300)
+    out = r.stdout.decode(errors='replace')
+    return {'reproduced': r.returncode == 1 and 'VIOLATION' in out, 'detail': out[-1200:]}
